@@ -357,7 +357,7 @@ def run(ctx):
         ctx.violation("struct soxr on the real code and in the model disagree at `%s`:\n real  %s\n model %s"
                       % (mismatch.get("at"), mismatch["real"], mismatch["model"]),
                       {"harness": "chan/history.c", "stdin": mismatch["real_stdin"], "model_stdin": mismatch["model_stdin"]},
-                      no_input=(nviol == 0))
+                      no_input=False)
     ctx.count("evaluations", ctx.cov.get("histories", 0) + ctx.cov.get("fields_lines", 0))
     ctx.cov["distinct_nontrivial"] = len(ctx.cov.get("history_kind", {})) * max(1, len(ctx.cov.get("case_engine", {})))
     ctx.cov["rule"] = ("falsifier: random probe job (engine/recipe/rates/datatypes/layout/scale, push|pull|one-shot schedule) run in 5 process "
